@@ -23,7 +23,8 @@ Inductive dsource :=
 | DSIter (l : pairs)          (* an iterator of (key, value) tuples *)
 | DSMapping (l : pairs)       (* a mapping that is not a dict (UserDict, MappingProxyType) *)
 | DSCompat (l : pairs)        (* a DictProxy of the same configuration and the same field; l = contents *)
-| DSProxyOther (l : pairs)    (* a DictProxy of another configuration or another field; l = contents *)
+| DSSameField (l : pairs)     (* a DictProxy of the same field in another configuration; l = contents *)
+| DSProxyOther (l : pairs)    (* a DictProxy of another field; l = contents *)
 | DSSelf.                     (* the dict itself *)
 
 Inductive dop :=
@@ -46,12 +47,13 @@ Inductive dop :=
 | DReversed
 | DEq (o : pyval)
 | DNe (o : pyval)
-| DOr (src : dsource).                      (* p | src : a plain dict *)
+| DOr (src : dsource)                       (* p | src : a plain dict *)
+| DNew (src : dsource).                     (* DictProxy(cfg, field, src): a new typed dict *)
 
 Definition ds_items (self : pairs) (src : dsource) : pairs :=
   match src with
   | DSNone => []
-  | DSDict l | DSPairs l | DSIter l | DSMapping l | DSCompat l | DSProxyOther l => l
+  | DSDict l | DSPairs l | DSIter l | DSMapping l | DSCompat l | DSSameField l | DSProxyOther l => l
   | DSSelf => self
   end.
 
@@ -69,7 +71,11 @@ Definition ds_truthy (self : pairs) (src : dsource) : bool :=
 
 (* is the argument a dict instance (needed by `|`) *)
 Definition ds_isdict (src : dsource) : bool :=
-  match src with DSDict _ | DSCompat _ | DSProxyOther _ | DSSelf => true | _ => false end.
+  match src with DSDict _ | DSCompat _ | DSSameField _ | DSProxyOther _ | DSSelf => true | _ => false end.
+
+(* `isinstance(iterable, DictProxy) and iterable.dict_field is dict_field` (DictProxy.__init__) *)
+Definition ds_samefield (src : dsource) : bool :=
+  match src with DSCompat _ | DSSameField _ | DSSelf => true | _ => false end.
 
 (* ------------------------------------------------------------------------------------------ *)
 (* builtin dict                                                                                 *)
@@ -149,6 +155,8 @@ Definition b_dstep (s : pairs) (op : dop) : pairs * res pyval :=
            | DSPairs _ => (s, Err EType)
            | _ => (s, Unmodelled)      (* other mappings answer through their own __ror__ *)
            end
+  | DNew src =>                         (* dict(src): a dict argument is cloned, anything else is a run of assignments *)
+      (s, Ok (PDict 0 (if ds_isdict src then ds_items s src else upd [] (ds_items s src))))
   end.
 
 (* ------------------------------------------------------------------------------------------ *)
@@ -227,6 +235,7 @@ Definition dop_entry (op : dop) : string :=
   | DEq _ => "__eq__"
   | DNe _ => "__ne__"
   | DOr _ => "__or__"
+  | DNew _ => "__init__"
   end.
 Close Scope string_scope.
 
@@ -325,6 +334,12 @@ Section DProxy.
         | Err e => (s, Err e)
         | Unmodelled => (s, Unmodelled)
         end
+    | DNew src =>                      (* DictProxy.__init__: fast path for a proxy of the same field *)
+        match dp_init (ds_samefield src) (ds_items s src) with
+        | Ok c => (s, Ok (PDict tg c))
+        | Err e => (s, Err e)
+        | Unmodelled => (s, Unmodelled)
+        end
     | DEq o =>                         (* not a dict -> False, else dict.__eq__ *)
         match o with
         | PDict _ _ => b_dstep s (DEq o)
@@ -353,6 +368,8 @@ Section DProxy.
     | DUpdate src kw => DUpdate (norm_src s src) (map norm_pair kw)
     | DIOr src => DIOr (norm_src s src)
     | DSetDefault k v => DSetDefault (dnorm1 VK k) (Some (dnorm1 VV (opt_or_none v)))
+    | DNew src => if ds_samefield src then DNew (DSDict (ds_items s src))
+                  else DNew (DSPairs (map norm_pair (ds_items s src)))
     | _ => op
     end.
 
@@ -365,12 +382,13 @@ Section DProxy.
     | DUpdate src kw => src_ok s src && forallb pair_ok kw
     | DIOr src => src_ok s src
     | DSetDefault k v => pair_ok (k, opt_or_none v)
+    | DNew src => ds_samefield src || forallb pair_ok (ds_items s src)
     | _ => true
     end.
 
   Definition dretag (op : dop) (r : res pyval) : res pyval :=
     match op with
-    | DCopy => match r with Ok (PDict _ l) => Ok (PDict tg l) | _ => r end
+    | DCopy | DNew _ => match r with Ok (PDict _ l) => Ok (PDict tg l) | _ => r end
     | _ => r
     end.
 
